@@ -470,6 +470,66 @@ def run_until_failure(ctx, exe, drv, cases, chunk=25):
     return out
 
 
+# --------------------------------------------------------------------------------------------------
+# first use: myth_once is the FIRST library call of the process (harness/c14_first.c, no controller)
+# --------------------------------------------------------------------------------------------------
+
+def build_first(ctx):
+    lib = vlib.build_lib()
+    key = vlib.sha(vlib.file_sha(lib), vlib.file_sha(os.path.join(vlib.VERIF, "harness", "c14_first.c")))[:12]
+    exe = os.path.join(ctx.dir, "first", "c14_first-" + key)
+    if not os.path.exists(exe):
+        vlib.cc(exe + ".tmp%d" % os.getpid(), [os.path.join(vlib.VERIF, "harness", "c14_first.c")],
+                flags=vlib.lib_cflags() + ["-O1", "-g"], libs=[lib, "-lpthread", "-ldl", "-lrt"])
+        os.rename(exe + ".tmp%d" % os.getpid(), exe)
+    return exe
+
+
+def first_cases(r, n):
+    cases = []
+    for i in range(n):
+        w = 1 + i % 4
+        if i < 4:       # the plain shape first: helpers that call the same control, routine yields
+            a = {"H": 2 + i, "Y": 1 + i % 3, "B": 0, "J": 0, "N": 0, "X": 0, "P": i % 2, "L": 1, "Z": 0, "z": 1}
+        else:
+            nb = r.below(4)
+            a = {"H": r.below(7), "Y": r.below(6), "B": nb, "J": 1 if nb and r.chance(1, 2) else 0, "N": r.below(2),
+                 "X": r.below(2), "P": r.below(2), "L": r.rng(0, 2), "Z": 1 if r.chance(1, 4) else 0, "z": r.below(4)}
+        cases.append({"workers": w, "args": ["%s=%d" % kv for kv in a.items()]})
+    return cases
+
+
+def first_oracle(c, rc, out):
+    """exactly one execution per control that was called, no overlap, no caller returned before completion"""
+    m = re.search(r"^first (.*)$", out, re.M)
+    if rc != 0 or not m:
+        return "process ended with rc=%s and no result line (hang / crash): %s" % (rc, out[-200:])
+    v = dict(kv.split("=") for kv in m.group(1).split())
+    v = {k: int(x) for k, x in v.items()}
+    if v["before"] != 0:
+        return "harness error: the runtime was already started before the first call (state %d)" % v["before"]
+    for X in "AB":
+        if v["calls" + X] and v["runs" + X] != 1:
+            return "the init routine of control %s was executed %d times (%d calls of myth_once)" % (X, v["runs" + X], v["calls" + X])
+        if v["overlap" + X]:
+            return "two executions of the init routine of control %s overlapped (%d times)" % (X, v["overlap" + X])
+        if v["early" + X]:
+            return "%d caller(s) of myth_once on control %s returned before its init routine had completed" % (v["early" + X], X)
+        if v["calls" + X] and v["state" + X] != 2:
+            return "control %s ends in state %d" % (X, v["state" + X])
+    if v["nonzero"]:
+        return "%d call(s) returned a non-zero value" % v["nonzero"]
+    return None
+
+
+def run_first(ctx, exe, cases):
+    res = []
+    for c in cases:
+        rc, out = vlib.sh([exe] + c["args"], env=dict(os.environ, MYTH_NUM_WORKERS=str(c["workers"])), timeout=30)
+        res.append({"case": c, "rc": rc, "out": out.strip()[-400:], "oracle": first_oracle(c, rc, out)})
+    return res
+
+
 def load_corpus():
     d = os.path.join(vlib.VERIF, "corpus", "C14")
     cs = []
@@ -555,6 +615,14 @@ def run(ctx):
     exe, drv = build(ctx)
     n = 90 if not ctx.thorough else 2500
     cases = load_corpus() + gen_cases(ctx, n)
+    fexe = build_first(ctx)
+    fres = run_first(ctx, fexe, first_cases(ctx.rng, 32 if not ctx.thorough else 400))
+    fu_bad = [x for x in fres if x["oracle"]]
+    ctx.cov["first_use"] = {"processes": len(fres), "oracle_failures": len(fu_bad),
+                            "workers": sorted(set(x["case"]["workers"] for x in fres)),
+                            "with_helpers_on_the_same_control": sum(1 for x in fres if "H=0" not in x["case"]["args"]),
+                            "with_helpers_on_another_control_joined_inside": sum(1 for x in fres if "J=1" in x["case"]["args"]),
+                            "sample": fres[0]["out"] if fres else None}
     struct_bad = steps.check(steps.ONCE_TABLE)
     ctx.cov["step_table"] = {"functions": sorted(steps.ONCE_TABLE), "unit": "src/" + steps.UNIT, "mismatches": struct_bad}
     results = run_until_failure(ctx, exe, drv, cases)
@@ -582,6 +650,7 @@ def run(ctx):
         "harness/lib_interp.c (schedule controller, interpreter, once.init.begin/end events around the init script); "
         "tools/trace.py (run_case, parse_trace); the projection once_block in tools/props/c14.py",
         "MYTH_VERIF_POINT placement in myth_once_body / myth_once_wait_until (one POINT immediately before each access to state)",
+        "harness/c14_first.c (first-use processes, public API, free-running workers; counters kept by the harness)",
         "modelled, not verified: the init routine (opaque steps), myth_yield inside the wait loop (C01); "
         "pthread_once wrapper (C16) calls the same body"]
     if bad_oracle:
@@ -614,7 +683,15 @@ def run(ctx):
                 " init routine suspended (yield/block/create) while a waiter polled" if not st["init_susp_polled"] else "",
                 " the same on one worker" if not st["oneworker_susp_polled"] else ""),
                 {"theorem_or_correspondence": "coverage of the POINT ids of the once routines", "histogram": hist}, found=False)
-    if struct_bad and not bad_oracle:
+    if fu_bad and not bad_oracle:
+        x = fu_bad[0]
+        ctx.violation("oracle", "first use: " + x["oracle"],
+                      {"first_use": {"args": x["case"]["args"], "workers": x["case"]["workers"]},
+                       "case": "MYTH_NUM_WORKERS=%d c14_first %s   (harness/c14_first.c: myth_once is the first library call of the process)"
+                               % (x["case"]["workers"], " ".join(x["case"]["args"])),
+                       "observed": x["out"], "expected": "runsA = 1, overlapA = 0, earlyA = 0 (same for B), rc 0",
+                       "level": "library"}, found=True)
+    if struct_bad and not bad_oracle and not fu_bad:
         hit = None
         if not bad_model:           # (the model-disagreement branch above has searched already)
             hit = search_oracle_failure(ctx, exe, drv, results[len(results) // 2]["case"], 300 if not ctx.thorough else 1500)
@@ -640,6 +717,14 @@ def run(ctx):
 
 def replay(ctx, path):
     body = json.load(open(path))
+    if "first_use" in body:
+        fexe = build_first(ctx)
+        c = {"workers": body["first_use"]["workers"], "args": body["first_use"]["args"]}
+        x = run_first(ctx, fexe, [c])[0]
+        print("case:   MYTH_NUM_WORKERS=%d c14_first %s" % (c["workers"], " ".join(c["args"])))
+        print("impl:  ", x["out"], "rc=%s" % x["rc"])
+        print("oracle:", x["oracle"] or "property holds on this run")
+        return 0
     exe, drv = build(ctx)
     if "case" not in body:
         print("replay file holds no case (broken obligation: %s)" % body.get("what"))
